@@ -3,10 +3,12 @@ Wire format of functional expressions for the C08/C09 drivers (not part of any t
 
 A functional is a `|`-separated PREFIX token list, e.g. `lscal|3/2|trans|1,2,3|l2sq`:
   l1 | indlinf | huber|γ | l2sq | const|c | indzero|c | lin|b|c
-  quad|M|Minv|hasB|b|c      (matrices `r11,r12;r21,r22`; the driver CHECKS M·Minv = I)
+  quad|M|Mt|Minv|hasB|b|c   (matrices `r11,r12;r21,r22`; Mt = matrix of the live `operator.adjoint`;
+                             Minv = matrix of `operator.inverse`, the driver CHECKS M·Minv = I;
+                             Minv = `-` (unknown) is accepted only by drivers that never conjugate)
   lscal|s|F  rscal|s|F  rvec|v|F  sum|F|G  ssum|c|F  trans|t|F  qp|a|hasU|u|c|F
   prod|F|G  quot|F|G  breg|p|q|F  infconv|F|G
-  compmat|M|F   (MatrixOperator, adjoint = transpose: unweighted / constant weight)
+  compmat|M|Mt|F (MatrixOperator; Mt = matrix of the live `op.adjoint`)
   compscale|s|F (ScalingOperator)   compmul|v|F (MultiplyOperator)
   comppow|p|F   (PowerOperator x^p, derivative(x).adjoint(y) = p x^(p-1) * y)
   menv|σ|F      (MoreauEnvelope; F ∈ {l1, l2sq}: prox = soft threshold / x/(1+2σ))
@@ -39,7 +41,7 @@ def powN (x : Rat) : Nat → Rat
 def softThr (σ x : Rat) : Rat := if x > σ then x - σ else if x < -σ then x + σ else 0
 
 /-- Parse one expression from the token list; returns the rest. `n` = dimension. -/
-def parseFn (n : Nat) : Nat → List String → Option (QFn × List String)
+def parseFn (n : Nat) (needInv : Bool) : Nat → List String → Option (QFn × List String)
   | 0, _ => none
   | fuel + 1, toks =>
     let vec (s : String) : Option (List Rat) := do
@@ -56,68 +58,73 @@ def parseFn (n : Nat) : Nat → List String → Option (QFn × List String)
     | "const" :: c :: r => do let c ← parseRat c; some (.const c, r)
     | "indzero" :: c :: r => do let c ← parseRat c; some (.indZero c, r)
     | "lin" :: b :: c :: r => do let b ← vec b; let c ← parseRat c; some (.lin b c, r)
-    | "quad" :: m :: mi :: hb :: b :: c :: r => do
+    | "quad" :: m :: mt :: mi :: hb :: b :: c :: r => do
         let M ← sqmat m
-        let Mi ← sqmat mi
-        if !(isIdentity (matMul M Mi)) then none
+        let Mt ← sqmat mt
         let hasB ← (match hb with | "1" => some true | "0" => some false | _ => none)
         let b ← vec b
         let c ← parseRat c
-        let Mt := transposeN n M
-        let Mit := transposeN n Mi
-        some (.quad (matVec M) (matVec Mt) (matVec Mi) (matVec Mit) hasB b c, r)
+        if mi = "-" then
+          if needInv then none
+          -- inverse unknown: value / gradient / grad_lipschitz only (placeholders never read)
+          some (.quad (matVec M) (matVec Mt) (fun x => x) (fun x => x) hasB b c, r)
+        else
+          let Mi ← sqmat mi
+          if !(isIdentity (matMul M Mi)) then none
+          let Mit := transposeN n Mi
+          some (.quad (matVec M) (matVec Mt) (matVec Mi) (matVec Mit) hasB b c, r)
     | "lscal" :: s :: r => do
-        let s ← parseRat s; let (f, r') ← parseFn n fuel r; some (.lscal s f, r')
+        let s ← parseRat s; let (f, r') ← parseFn n needInv fuel r; some (.lscal s f, r')
     | "rscal" :: s :: r => do
-        let s ← parseRat s; let (f, r') ← parseFn n fuel r; some (.rscal f s, r')
+        let s ← parseRat s; let (f, r') ← parseFn n needInv fuel r; some (.rscal f s, r')
     | "rvec" :: v :: r => do
-        let v ← vec v; let (f, r') ← parseFn n fuel r
+        let v ← vec v; let (f, r') ← parseFn n needInv fuel r
         if v.any (· = 0) then none
         some (.rvec f v (v.map (1 / ·)), r')
     | "sum" :: r => do
-        let (f, r1) ← parseFn n fuel r; let (g, r2) ← parseFn n fuel r1; some (.sum f g, r2)
+        let (f, r1) ← parseFn n needInv fuel r; let (g, r2) ← parseFn n needInv fuel r1; some (.sum f g, r2)
     | "ssum" :: c :: r => do
-        let c ← parseRat c; let (f, r') ← parseFn n fuel r; some (.ssum f c, r')
+        let c ← parseRat c; let (f, r') ← parseFn n needInv fuel r; some (.ssum f c, r')
     | "trans" :: t :: r => do
-        let t ← vec t; let (f, r') ← parseFn n fuel r; some (.trans f t, r')
+        let t ← vec t; let (f, r') ← parseFn n needInv fuel r; some (.trans f t, r')
     | "qp" :: a :: hu :: u :: c :: r => do
         let a ← parseRat a
         let hasU ← (match hu with | "1" => some true | "0" => some false | _ => none)
         let u ← vec u
         let c ← parseRat c
-        let (f, r') ← parseFn n fuel r
+        let (f, r') ← parseFn n needInv fuel r
         some (.qp f a hasU u c, r')
     | "prod" :: r => do
-        let (f, r1) ← parseFn n fuel r; let (g, r2) ← parseFn n fuel r1; some (.prod f g, r2)
+        let (f, r1) ← parseFn n needInv fuel r; let (g, r2) ← parseFn n needInv fuel r1; some (.prod f g, r2)
     | "quot" :: r => do
-        let (f, r1) ← parseFn n fuel r; let (g, r2) ← parseFn n fuel r1; some (.quot f g, r2)
+        let (f, r1) ← parseFn n needInv fuel r; let (g, r2) ← parseFn n needInv fuel r1; some (.quot f g, r2)
     | "breg" :: p :: q :: r => do
-        let p ← vec p; let q ← vec q; let (f, r') ← parseFn n fuel r; some (.breg f p q, r')
+        let p ← vec p; let q ← vec q; let (f, r') ← parseFn n needInv fuel r; some (.breg f p q, r')
     | "infconv" :: r => do
-        let (f, r1) ← parseFn n fuel r; let (g, r2) ← parseFn n fuel r1; some (.infconv f g, r2)
-    | "compmat" :: m :: r => do
+        let (f, r1) ← parseFn n needInv fuel r; let (g, r2) ← parseFn n needInv fuel r1; some (.infconv f g, r2)
+    | "compmat" :: m :: mt :: r => do
         let M ← sqmat m
-        let Mt := transposeN n M
-        let (f, r') ← parseFn n fuel r
-        some (.comp f (matVec M) (fun _ y => matVec Mt y), r')
+        let Mt ← sqmat mt
+        let (f, r') ← parseFn n needInv fuel r
+        some (.comp f (matVec M) (fun _ y => matVec Mt y) true, r')
     | "compscale" :: s :: r => do
-        let s ← parseRat s; let (f, r') ← parseFn n fuel r
-        some (.comp f (List.map (s * ·)) (fun _ y => y.map (s * ·)), r')
+        let s ← parseRat s; let (f, r') ← parseFn n needInv fuel r
+        some (.comp f (List.map (s * ·)) (fun _ y => y.map (s * ·)) true, r')
     | "compmul" :: v :: r => do
-        let v ← vec v; let (f, r') ← parseFn n fuel r
-        some (.comp f (List.zipWith (· * ·) v) (fun _ y => List.zipWith (· * ·) v y), r')
+        let v ← vec v; let (f, r') ← parseFn n needInv fuel r
+        some (.comp f (List.zipWith (· * ·) v) (fun _ y => List.zipWith (· * ·) v y) true, r')
     | "comppow" :: p :: r => do
         let p ← p.toNat?
         if p = 0 then none
-        let (f, r') ← parseFn n fuel r
+        let (f, r') ← parseFn n needInv fuel r
         some (.comp f (List.map (powN · p))
-          (fun x y => List.zipWith (fun xi yi => (p : Rat) * powN xi (p - 1) * yi) x y), r')
+          (fun x y => List.zipWith (fun xi yi => (p : Rat) * powN xi (p - 1) * yi) x y) false, r')
     | "dconj" :: r => do
-        let (f, r') ← parseFn n fuel r; some (.dconj f, r')
+        let (f, r') ← parseFn n needInv fuel r; some (.dconj f, r')
     | "menv" :: s :: r => do
         let σ ← parseRat s
         if σ ≤ 0 then none
-        let (f, r') ← parseFn n fuel r
+        let (f, r') ← parseFn n needInv fuel r
         match f with
         | .coord .l1 => some (.menv f (List.map (softThr σ)) σ, r')
         | .l2sq => some (.menv f (List.map (· / (1 + 2 * σ))) σ, r')
@@ -125,11 +132,11 @@ def parseFn (n : Nat) : Nat → List String → Option (QFn × List String)
     | _ => none
 
 /-- Parse the `f=` and `w=` arguments of a line: `(ops, expression, n)`. -/
-def parseCase (l : Line) : Option (VecOps (List Rat) Rat × QFn × Nat) := do
+def parseCase (l : Line) (needInv : Bool) : Option (VecOps (List Rat) Rat × QFn × Nat) := do
   let w ← l.rats? "w"
   if w.isEmpty then none
   let fs ← l.get? "f"
-  let (f, rest) ← parseFn w.length 64 (fs.splitOn "|")
+  let (f, rest) ← parseFn w.length needInv 64 (fs.splitOn "|")
   if !rest.isEmpty then none
   some (listOps w, f, w.length)
 
